@@ -122,7 +122,13 @@ func (a *Allocation) AddPermission(perms *Permission) {
 func (a *Allocation) RemovePermission(addr net.Addr) {
 	a.permissionsLock.Lock()
 	defer a.permissionsLock.Unlock()
-	delete(a.permissions, ipnet.FingerprintAddr(addr))
+
+	// The permission may be gone already: its timer and Close() can both get here.
+	fingerprint := ipnet.FingerprintAddr(addr)
+	if _, ok := a.permissions[fingerprint]; !ok {
+		return
+	}
+	delete(a.permissions, fingerprint)
 
 	if a.eventHandler.OnPermissionDeleted != nil {
 		if u, ok := addr.(*net.UDPAddr); ok {
